@@ -115,6 +115,34 @@ macro_rules! fit_as {
     }};
 }
 
+/// child-process variant: no helper thread (the parent enforces the time limit, and a stack
+/// overflow on the main thread's 8 MB stack is reached much sooner than on the watchdog's 64 MB)
+macro_rules! fit_direct {
+    ($t:ty, $x:expr, $k:expr, $mi:expr) => {{
+        let xm: Vec<Vec<$t>> = $x.iter().map(|r| r.iter().map(|&v| v as $t).collect()).collect();
+        let xd = DenseMatrix::from_2d_vec(&xm);
+        let k: usize = $k;
+        let mi: usize = $mi;
+        match guard(|| KMeans::<$t>::fit(&xd, KMeansParameters::default().with_k(k).with_max_iter(mi))) {
+            Err(_) => empty_out("panic"),
+            Ok(Err(_)) => empty_out("err"),
+            Ok(Ok(model)) => {
+                let (y, size, centroids) = dump(&serde_json::to_value(&model).unwrap_or(Value::Null));
+                let mut out = FitOut { status: "ok", y, size, centroids, pstatus: "none", pred: vec![] };
+                match guard(|| model.predict(&xd)) {
+                    Ok(Ok(p)) => {
+                        out.pstatus = "ok";
+                        out.pred = p.iter().map(|&v| v as f64).collect();
+                    }
+                    Ok(Err(_)) => out.pstatus = "err",
+                    Err(_) => out.pstatus = "panic",
+                }
+                out
+            }
+        }
+    }};
+}
+
 fn run_fit(prec: u32, x: &Rows, q: &Rows, k: usize, mi: usize) -> FitOut {
     if prec == 32 {
         fit_as!(f32, x, q, k, mi)
@@ -256,7 +284,7 @@ fn gen_fit(out: &mut Out, run: &mut i64) {
     let th = thorough();
     let mut r = rng(1201);
     let reps = if th { 40 } else { 5 };
-    let sets = if th { 260 } else { 110 };
+    let sets = if th { 200 } else { 110 };
     // (a) the scope of the Lloyd design model: 1-D rows on 0..4, canonical order, k = 2
     let nmax = 5usize;
     let mut small: Vec<Vec<i64>> = vec![vec![]];
@@ -391,7 +419,7 @@ fn ulp_child(id: usize) {
     let cases = ulp_cases();
     let (prec, x, cls) = &cases[id];
     let q: Rows = x.clone();
-    let o = run_fit(*prec, x, &q, 2, 10);
+    let o = if *prec == 32 { fit_direct!(f32, x, 2, 10) } else { fit_direct!(f64, x, 2, 10) };
     println!("{}", fit_event(0, cls, *prec, false, x, &q, 2, 10, &o));
 }
 
@@ -568,7 +596,7 @@ fn gen_bbd(out: &mut Out, run: &mut i64) -> usize {
     let th = thorough();
     let mut r = rng(1202);
     let mut skipped = 0usize;
-    let cases = if th { 2600 } else { 420 };
+    let cases = if th { 2600 } else { 300 };
     for s in 0..cases {
         let n = pick_n(&mut r, th);
         let d = r.gen_range(1..=6usize);
@@ -596,7 +624,7 @@ fn gen_bbd(out: &mut Out, run: &mut i64) -> usize {
     }
     // Lloyd chains through the real tree: centroids = means of the previous assignment,
     // exactly as KMeans::fit feeds them back (sums / counts, previous centroid when empty)
-    let chains = if th { 500 } else { 90 };
+    let chains = if th { 500 } else { 60 };
     for s in 0..chains {
         let n = if th { pick_n(&mut r, th).min(200) } else { pick_n(&mut r, th).min(80) };
         let d = r.gen_range(1..=4usize);
